@@ -26,6 +26,7 @@ EXHAUSTIVE = {
     "thorough": {"joint zero patterns (4^cells) for all shapes with <= 6 cells, N<=3": "complete",
                  "8-cell shapes (2,2,2),(2,4),(8,): 4^8 patterns": "sampled 1/16 per run (chunk chosen by seed)"},
 }
+THOROUGH_PASSES = 1     # the thorough generator of this property is already minutes long
 WATCHDOG = {"quick": 900, "thorough": 3400}
 SHARDS = {"quick": 16, "thorough": 16}
 VALS = [-2.0, -1.0, 1.0, 2.0, 0.5]
